@@ -219,6 +219,8 @@ func LemmaEscQPrintable(s string, k int) {
 		return
 	}
 	LemmaEscQPrintable(s, k-1)
+	// the length of the image so far is non-negative (needed to unfold the concatenation)
+	LemmaEscQ(s, k-1)
 }
 
 //@ contract Operator.escapeDoublequotes
